@@ -330,7 +330,14 @@ func aggregateRows(selectList sql.SelectList, groupBy []sql.ColumnReference, row
 	groupKey := func(row *storage.Row) string {
 		var key string
 		for _, idx := range groupByIdx {
-			key += fmt.Sprintf("%v", row.Vals[idx])
+			// length-prefix every value so that different value lists cannot
+			// produce the same concatenation, e.g. (1, 23) and (12, 3)
+			if row.Vals[idx] == nil {
+				key += "null;"
+				continue
+			}
+			val := fmt.Sprintf("%v", row.Vals[idx])
+			key += fmt.Sprintf("%d:%s;", len(val), val)
 		}
 		return key
 	}
